@@ -17,6 +17,7 @@ ODD_KEYS = ['a:b', 'k-1', '!x', 'u_v', 'T9', '-z']          # the other characte
 KEY_TEXT_RE = re.compile(r'[A-Za-z0-9_:!-]+\Z')             # = proofs/SnippetAliasParse.key_text
 
 
+COLLIDING_ALIAS_ATTRIBUTES = True      # generator class: attributes written on the alias that the definition has as well
 TIME_LIMIT = 10.0        # seconds per expansion; generated tables expand in milliseconds
 
 
@@ -535,6 +536,156 @@ def resolved_tie(ctx, tables):
     ctx.cov['correspondence']['snip_C14_resolved_tree'] = {'cases': len(wires), 'disagreements': dis}
 
 
+
+# ---------------------------------------------------------------- alias attributes that COLLIDE with the definition's own
+# An attribute written on the alias whose name the definition already gives to a top-level element: "attributes
+# written on the alias are applied to the top-level elements of the definition" = every top-level element then
+# carries the value WRITTEN ON THE ALIAS (also when that value is explicitly empty, or absent), at the place the
+# statement's "definition in its place" reading gives it (position of the definition's attribute; first, in
+# written order, under output.reverseAttributes).  Shapes of the value written on the alias:
+EMPTY_SHAPES = [('empty-dq', '[%s=""]'), ('empty-sq', "[%s='']"), ('no-value', '[%s]'), ('boolean-no-value', '[%s.]'),
+                ('empty-expr', '[%s={}]'), ('empty-dq+fresh', '[%s="" zq=1]')]
+FULL_SHAPES = [('raw', '[%s=nv]'), ('quoted', '[%s="n v"]'), ('single-quoted', "[%s='q']"), ('fresh+raw', '[zq=1 %s=nv]'),
+               ('expr', '[%s={e}]')]
+# transform steps documented to DROP an attribute afterwards (emmet docs / addon sources: `label` with an input inside
+# loses an empty `for`, xsl:variable / xsl:with-param with content lose `select`): not part of this property
+ADDON_DROPS = {('label', 'for'), ('xsl:variable', 'select'), ('xsl:with-param', 'select')}
+_rot = [0]
+
+
+def top_attr_names(key, cfg):
+    """Names the bare alias gives its top-level elements (generator side only: WHERE a collision can be written).
+    None when the alias does not expand to named top-level elements."""
+    t = au.impl_tree(key, cfg)
+    if t[0] != 'ok':
+        return None
+    tops = [n for n in t[1] if n[0] == 0]
+    if not tops or any(n[1] is None for n in tops):
+        return None
+    names = []
+    for n in tops:
+        for a in n[4] or []:
+            if a[0] and a[0] not in names and (n[1], a[0]) not in ADDON_DROPS and re.match(r'[A-Za-z][A-Za-z0-9:_-]*\Z', a[0]):
+                names.append(a[0])
+    return names
+
+
+def override_decos(names, rng=None, per_name=2):
+    """[(shape, attribute name, decoration text)]: for every colliding name one value of the empty family and one of
+    the non-empty family (rotating through the shapes, or drawn from rng), `#nid` for id, one more class word for class."""
+    out = []
+    for nm in names:
+        if nm == 'class':
+            out.append(('class-word', nm, '[class=nv]'))          # class values are joined, not replaced
+            continue
+        _rot[0] += 1
+        fams = [EMPTY_SHAPES, FULL_SHAPES + ([('id-shorthand', '#nid')] if nm == 'id' else [])]
+        if per_name == 1:
+            r = rng.randrange(3) if rng else _rot[0] % 3
+            fams = [fams[1] if r == 0 else fams[0]]          # 2/3 from the empty family
+        for fam in fams:
+            shape, fmt = rng.choice(fam) if rng else fam[_rot[0] % len(fam)]
+            out.append((shape, nm, fmt % nm if '%s' in fmt else fmt))
+    return out
+
+
+def _norm_val(v):
+    # a value that is absent and a value that is written but empty are not told apart (both are output as an empty value)
+    if not v:
+        return None
+    out = []
+    for t in v:
+        if t[0] == 's' and out and out[-1][0] == 's':
+            out[-1] = ('s', out[-1][1] + t[1])
+        elif t != ('s', ''):
+            out.append(tuple(t))
+    return out or None
+
+
+def _norm_attrs(attrs):
+    """(name, value, boolean, implied) of each attribute: what the statement speaks about (not the quote style)."""
+    return [(a[0], _norm_val(a[1]), bool(a[3]), bool(a[4])) for a in (attrs or [])]
+
+
+def apply_alias_attrs(base_attrs, deco_attrs, reverse):
+    """The property, stated directly: attributes of a top-level element of the definition (base_attrs, merged) once the
+    attributes written on the alias (deco_attrs, distinct names) are applied.  The alias' value replaces the
+    definition's (class: both, joined by one space, in attribute order); boolean / implied marks of either stay."""
+    base = _norm_attrs(base_attrs)
+    deco = _norm_attrs(deco_attrs)
+
+    def join(x, y):          # x written before y
+        if x[0] == 'class':
+            if x[1] is None or y[1] is None:
+                v = x[1] if y[1] is None else y[1]
+            else:
+                v = _norm_val(list(x[1]) + [('s', ' ')] + list(y[1]))
+            return (x[0], v, x[2], x[3])
+        return None
+    dnames = [a[0] for a in deco]
+    bnames = [a[0] for a in base]
+    out = []
+    if reverse:
+        for a in deco:
+            if a[0] in bnames:
+                b = base[bnames.index(a[0])]
+                out.append(join(a, b) or (a[0], a[1], a[2] or b[2], a[3] or b[3]))
+            else:
+                out.append(a)
+        out += [b for b in base if b[0] not in dnames]
+    else:
+        for b in base:
+            if b[0] in dnames:
+                a = deco[dnames.index(b[0])]
+                out.append(join(b, a) or (b[0], a[1], a[2] or b[2], a[3] or b[3]))
+            else:
+                out.append(b)
+        out += [a for a in deco if a[0] not in bnames]
+    return out
+
+
+def override_oracle(key, deco, cfg):
+    """Final tree (markup.parse) of KEY<deco> = final tree of KEY with the attributes of <deco> (read off the plain element
+    zzq<deco>, which is no alias) applied to every top-level node.  Returns why it fails, or None."""
+    reverse = bool((cfg.get('options') or {}).get('output.reverseAttributes'))
+    base = au.impl_tree(key, cfg)
+    plain = au.impl_tree(FRESH + deco, cfg)
+    if base[0] != 'ok' or plain[0] != 'ok' or len(plain[1]) != 1 or plain[1][0][1] != FRESH:
+        return None
+    dattrs = [a for a in (plain[1][0][4] or [])]
+    if not dattrs or any(not a[0] for a in dattrs) or len(set(a[0] for a in dattrs)) != len(dattrs):
+        return None
+    if any(n[0] == 0 and (n[1] is None or any((n[1], a[0]) in ADDON_DROPS for a in dattrs)) for n in base[1]):
+        return None
+    got = au.impl_tree(key + deco, cfg)
+    if got[0] != 'ok':
+        return 'markup.parse(%r) gives %r although %r and %r parse' % (key + deco, got, key, FRESH + deco)
+    if len(got[1]) != len(base[1]):
+        return 'the tree of %r has %d nodes, the tree of %r has %d' % (key + deco, len(got[1]), key, len(base[1]))
+    for g, b in zip(got[1], base[1]):
+        want = apply_alias_attrs(b[4], dattrs, reverse) if b[0] == 0 else _norm_attrs(b[4])
+        have = _norm_attrs(g[4])
+        if (g[0], g[1], g[2], g[3], g[5]) != (b[0], b[1], b[2], b[3], b[5]) or have != want:
+            return ('node <%s> (depth %d) of %r: attributes %r, expected %r = those of the definition %r with the attributes written on '
+                    'the alias %r applied%s' % (g[1], g[0], key + deco, have, want, _norm_attrs(b[4]), _norm_attrs(dattrs),
+                                                 '' if (g[1], g[2], g[3], g[5]) == (b[1], b[2], b[3], b[5]) else '; name/text/repeat/self-closing differ too'))
+    return None
+
+
+def override_pairs(key, d, cfg, rev, rng=None, per_name=2):
+    """[(kind, alias form, definition-in-place form or None, decoration)] for the colliding decorations of one key."""
+    names = top_attr_names(key, cfg)
+    if not names:
+        return []
+    out = []
+    if rng is not None:
+        # user tables: one name per key; `class` (half of the generated elements have one) one time in five
+        names = [n for n in rng.sample(names, len(names)) if n != 'class' or rng.random() < 0.2][:1]
+    for shape, nm, deco in override_decos(names, rng, per_name):
+        b = su.decorate_tops(d, deco, after_name=rev)
+        out.append(('override:' + shape, key + deco, b, deco))
+    return out
+
 def mentions_lorem_text(s):
     return 'lorem' in s.lower()
 
@@ -554,6 +705,21 @@ def builtin_cases():
                     if rev and kind in ('alone', 'repeat-in-parent') and hash(k) % 4:
                         continue
                     cases.append({'kind': 'builtin:' + kind, 'a': a, 'b': b, 'config': cfg, 'equal': True, 'bound': None})
+    if COLLIDING_ALIAS_ATTRIBUTES:
+        # every key once (xsl / pug: the keys those tables add or change), every attribute name its definition gives a
+        # top-level element, written on the alias again with an empty-family and a non-empty-family value
+        own = (('html', dict(markup_snippets)), ('xsl', dict(xsl_snippets)), ('pug', dict(pug_snippets)))
+        i = 0
+        for syn, tbl in own:
+            for k, d in tbl.items():
+                if mentions_lorem_text(k + d):
+                    continue
+                i += 1
+                rev = i % 3 == 0
+                cfg = {'syntax': syn} if not rev else {'syntax': syn, 'options': {'output.reverseAttributes': True}}
+                for kind, a, b, deco in override_pairs(k, d, cfg, rev):
+                    cases.append({'kind': 'builtin:' + kind + (':reversed' if rev else ''), 'a': a, 'b': b, 'config': cfg,
+                                  'equal': b is not None, 'bound': None, 'key': k, 'deco': deco})
     return cases
 
 
@@ -578,7 +744,12 @@ def variable_round_cases():
                 cfg['snippets'] = dict(user)
             for kind, a, b in su.alias_pairs(k, d, False):
                 if kind in ('alone', 'child'):
-                    cases.append({'kind': 'variables-round%d:%s' % (rnd, kind), 'a': a, 'b': b, 'config': cfg, 'equal': True, 'bound': None})
+                    c = {'kind': 'variables-round%d:%s' % (rnd, kind), 'a': a, 'b': b, 'config': cfg, 'equal': True, 'bound': None}
+                    if rnd:
+                        # the call sequence that precedes this case in the run (the same alias under the earlier rounds'
+                        # variables): a replay file repeats it in its fresh process before the case itself
+                        c['prelude'] = [[a, dict(cfg, variables=dict(v))] for v in VARIABLE_ROUNDS[:rnd]]
+                    cases.append(c)
     return cases
 
 
@@ -619,6 +790,10 @@ def user_cases(ctx, n_tables, tables=None):
             for kind, a, b in su.alias_pairs(k, d, rev):
                 cases.append({'kind': ('user-cyclic:' if cyc else 'user:') + kind, 'a': a, 'b': b, 'config': cfg,
                               'equal': not cyc, 'bound': bound})
+            if COLLIDING_ALIAS_ATTRIBUTES:
+                for kind, a, b, deco in override_pairs(k, d, cfg, rev, rng, per_name=1):
+                    cases.append({'kind': ('user-cyclic:' if cyc else 'user:') + kind + (':reversed' if rev else ''), 'a': a, 'b': b,
+                                  'config': cfg, 'equal': not cyc and b is not None, 'bound': bound, 'key': k, 'deco': deco})
         # a larger abbreviation over the table
         names = list(table) + PLAIN
         abbr = rand_definition(rng, names)
@@ -676,6 +851,10 @@ def check_case(c):
                 if len(reps) % 3 or [tuple(r) if r else r for r in reps] != want:
                     return ('the nodes that replace the three copies of the alias in %r carry the repeaters %r, not (3,0) (3,1) (3,2) on '
                             'each copy\'s top-level nodes' % (a3, reps[:9])), ra, depth
+    if c.get('deco') is not None and c.get('key') is not None:
+        why = override_oracle(c['key'], c['deco'], c['config'])
+        if why:
+            return why + '; expand gives %r' % (ra[1][:200],), ra, depth
     return None, ra, depth
 
 
@@ -702,6 +881,15 @@ def run(ctx):
                        'the decorated-alias theorems (attributes / children below find_deepest / repeater / text / self-closing applied to the resolved '
                        'definition; bare alias = definition for definitions that do not reach themselves) as an oracle on resolve_snippets '
                        '(trees before the transform pass) for every key, the same trees through the extracted model; '
+                       'COLLIDING alias attributes: for every built-in key (html; the keys xsl / pug add) and one name per user-table key, '
+                       'every attribute name the bare alias gives a top-level element is written on the alias again, once with a value of the '
+                       'empty family ("" / \'\' / no value / boolean mark without value / {} / "" next to a fresh attribute) and once of the non-empty '
+                       'family (raw / quoted with a space / single-quoted / after a fresh attribute / {expression} / #id shorthand; class: one more '
+                       'word), a third of the keys under reverseAttributes: the final tree of KEY<deco> must be the final tree of KEY with, on every '
+                       'top-level node, the value written on the alias in place of the definition\'s (name, value, boolean, implied compared; '
+                       'position of the definition\'s attribute, alias attributes first when reversed; written value read off the plain element '
+                       'zzq<deco>), and expand(KEY<deco>) = expand(definition with <deco> written on its top-level elements); skipped: top-level '
+                       'text nodes, label[for] / xsl:variable[select] which addon steps drop; '
                        'parse_snippets multi-key expansion; every alias form also through the extracted model. '
                        'non-trivial = decorated alias or user table; distinct by abbreviation + config.')
     multikey_check(ctx)
@@ -800,6 +988,8 @@ def replay(ctx, obj):
             return 1 if fails else 0
         print('replay names a broken obligation, no input: %s' % str(rp)[:300])
         return 1
+    for pa, pcfg in rp.get('prelude') or []:
+        print('earlier call of the sequence: expand(%r, %r) -> %r' % (pa, pcfg, impl_expand(pa, pcfg)))
     why, ra, depth = check_case(rp)
     print('expand(%r, %r) -> %r (depth %d)\nproperty oracle: %s' % (rp['a'], rp['config'], ra, depth, why or 'holds'))
     return 1 if why else 0
